@@ -66,6 +66,27 @@ def several_pending(rng, version, hist):
 CFG["post"].append(lambda rng, version, hist: several_pending(rng, version, hist) if rng.random() < 0.2 else hist)
 
 
+def reboot_pending(rng, version, hist):
+    """a firmware update is scheduled for a sleeping node that has a desired value pending: its next reports are
+    answered with reboot requests (withheld like everything else) and still count as reports"""
+    if rng.random() > 0.2:
+        return hist
+    node = rng.choice([1, 2, 7, 42])
+    wake = f"{node};255;3;0;{32 if version == '2.2' else 22};{gw.wake_payload(rng)}\n"
+    a, b = str(rng.randrange(101)), str(rng.randrange(101))
+    script = [("L", f"{node};255;0;0;17;{version}\n"), ("L", f"{node};0;0;0;4;dimmer\n"),
+              ("L", f"{node};0;1;0;3;{a}\n"), ("L", wake), ("S", node, 0, 3, b, None),
+              ("U", [node], 1, 1, bytes(range(40))), ("L", wake), ("L", f"{node};0;1;0;3;{rng.choice([a, b])}\n"),
+              ("L", wake), ("L", f"{node};0;2;0;3;\n"), ("L", wake)]
+    k = rng.randrange(len(hist) + 1)
+    while k < len(hist) and hist[k][0] == "R":
+        k += 1
+    return list(hist[:k]) + script + list(hist[k:])
+
+
+CFG["post"].append(reboot_pending)
+
+
 def run(tier, seed, driver):
     import random
     from . import c05
